@@ -139,6 +139,18 @@ def case_video(rng, choice=None):
     svc.bits_per_pixel = SourceValue(2 * bpp * u.dimensionless)
     if not close_q(phys(jobA.data_transferred), (4 * bitrate * frac(dur) * 3600, (0, 0, 0, 0, 0))):
         vs.append(("video-not-refreshed:bits_per_pixel", "data transferred not refreshed after editing the service's bits_per_pixel"))
+    # … including the categorical input, back and forth (a value equal to an earlier one is a new object)
+    others = [r for r in res_list if r != resolution]
+    for nxt in [rng.choice(others), resolution, rng.choice(others)]:
+        jobA.resolution = SourceObject(nxt)
+        w2, h2 = map(int, re.search(r"\((\d+)\s*x\s*(\d+)\)", nxt).groups())
+        br2 = Fraction(w2 * h2) * frac(bpp) * 2 * frac(fps) * 2
+        if not close_q(phys(jobA.dynamic_bitrate), (br2, (-1, 0, 0, 0, 0))):
+            vs.append(("video-not-refreshed:resolution", f"bitrate not refreshed after switching the resolution to {nxt}"))
+            break
+        if not close_q(phys(jobA.data_transferred), (br2 * frac(dur) * 3600, (0, 0, 0, 0, 0))):
+            vs.append(("video-not-refreshed:resolution", f"data transferred not refreshed after switching the resolution to {nxt}"))
+            break
     derived2 = {k: SourceValue(getattr(jobA, k).value) for k in derived}
     sysC, _, _ = mk(derived2)
     why = sysoracles.obs_diff(footprints(sysA), footprints(sysC))
@@ -183,7 +195,10 @@ def case_web(rng, choice=None):
         vs.append(("web-ram-rule", "RAM needed ≠ Ecobenchmark row"))
     # refresh: change the technology of the service
     other = rng.choice([t for t in techs if t != tech])
-    svc.technology = SourceObject(other)
+    try:
+        svc.technology = SourceObject(other)
+    except IndexError as e:  # D23 reached through an edit: no Ecobenchmark row for (other, impl)
+        return vs + [("web-edit-raises:IndexError", f"technology {tech} → {other} with {impl}: {e}")], {"builder": "web", "choice": [tech, impl]}
     row2 = ECOBENCHMARK_DF[(ECOBENCHMARK_DF["service"] == other) & (ECOBENCHMARK_DF["use_case"] == impl)].iloc[0]
     if not close_q(phys(jobA.compute_needed), (frac(float(row2["avg_cpu_core_per_request"])), (0, 0, 0, 1, 0))):
         vs.append(("web-not-refreshed:technology", f"compute needed not refreshed after switching {tech} → {other}"))
@@ -277,7 +292,10 @@ def case_cloud(rng, choice=None):
     try:
         sysA, svA = mk(None)
     except Exception as e:  # noqa
-        return [(f"cloud-build-raises:{err_enum(e)}", f"{provider}/{itype}: {e}")], {"builder": "cloud", "choice": [provider, itype]}
+        import traceback
+        in_api = any(fr.name == "update_api_call_response" for fr in traceback.extract_tb(e.__traceback__))
+        sig = f"cloud-api-call-raises:{type(e).__name__}" if in_api else f"cloud-build-raises:{err_enum(e)}"
+        return [(sig, f"{provider}/{itype}: {e}")], {"builder": "cloud", "choice": [provider, itype]}
     derived = {k: getattr(svA, k).value for k in ("carbon_footprint_fabrication", "power", "ram", "compute")}
     sysB, svB = mk(derived)
     why = sysoracles.obs_diff(footprints(sysA), footprints(sysB))
